@@ -66,10 +66,16 @@ def _targets_value(st):
     return None
 
 
-def class_state_writes(func, sym):
+def class_state_writes(func, sym, class_mutables=()):
     """[(node, 'Class.attr', how)] writes to class-level state inside func."""
     out = []
     cls = func._cls.name if func._cls is not None else None
+    # instance attributes of the class (assigned through self somewhere in the class) shadow a class-level name of the same spelling
+    inst = set()
+    if func._cls is not None:
+        for x in ast.walk(func._cls):
+            if isinstance(x, ast.Attribute) and isinstance(x.ctx, ast.Store) and isinstance(x.value, ast.Name) and x.value.id == 'self':
+                inst.add(x.attr)
 
     def class_target(e):
         # Class.attr / cls.attr / self.__class__.attr
@@ -80,6 +86,9 @@ def class_state_writes(func, sym):
             if isinstance(v, ast.Name) and v.id == 'cls' and cls:
                 return '%s.%s' % (cls, e.attr)
             if isinstance(v, ast.Attribute) and v.attr == '__class__':
+                return '%s.%s' % (cls, e.attr)
+            # self.X where X is a class-level mutable container of this class and never an instance attribute: the one shared object
+            if isinstance(v, ast.Name) and v.id == 'self' and cls and '%s.%s' % (cls, e.attr) in class_mutables and e.attr not in inst:
                 return '%s.%s' % (cls, e.attr)
         return None
 
@@ -149,7 +158,7 @@ def run(repo, rep, tier):
         fid = func_id(f)
         rep.saw(f)
         # (a) writes to class-level state
-        for node, ct, how in class_state_writes(f, sym):
+        for node, ct, how in class_state_writes(f, sym, class_mutables):
             nwrites += 1
             attr = ct.split('.', 1)[1]
             if attr == 'DB_PER_THREAD':
